@@ -170,12 +170,23 @@ def lean_import_closure(module):
     return seen
 
 
+def theorem_modules(prop_id):
+    """the theorem modules of a property: EpModel.Props.<id> and every EpModel.Props.<id><Suffix> (a suffix
+    file that has to import theorem files of other properties cannot always be imported by <id>.lean itself)"""
+    pdir = os.path.join(LEAN_DIR, "EpModel", "Props")
+    files = sorted(fn for fn in os.listdir(pdir) if re.fullmatch(re.escape(prop_id) + r"[A-Za-z_]*\.lean", fn))
+    mods = ["EpModel.Props." + fn[:-5] for fn in files]
+    main = "EpModel.Props." + prop_id
+    return [main] + [m for m in mods if m != main]
+
+
 def proof_step(prop_id, tier, log):
     """build theorem module + driver, audit. returns dict(ok, obligations, discharged, theorems, problems)."""
     res = {"ok": True, "theorems": [], "problems": [], "obligations": 0, "discharged": 0, "axioms": {}}
     module = "EpModel.Props." + prop_id
+    modules = theorem_modules(prop_id)
     with BuildLock():
-        rc, out = run_cmd(["lake", "build", module, "epdrv"], LEAN_DIR)
+        rc, out = run_cmd(["lake", "build"] + modules + ["epdrv"], LEAN_DIR)
     log.append(("lake build", rc, out[-4000:]))
     if rc != 0:
         res["ok"] = False
@@ -194,7 +205,9 @@ def proof_step(prop_id, tier, log):
     res["obligations"] = len(names) + 2
     discharged = 1  # the build
     # source audit over the import closure
-    closure = lean_import_closure(module)
+    closure = {}
+    for m in modules:
+        closure.update(lean_import_closure(m))
     bad = []
     for m, path in sorted(closure.items()):
         src = strip_lean_comments(open(path).read())
@@ -209,7 +222,8 @@ def proof_step(prop_id, tier, log):
     os.makedirs(WORK_DIR, exist_ok=True)
     audit = os.path.join(WORK_DIR, "audit_%s.lean" % prop_id)
     with open(audit, "w") as f:
-        f.write("import %s\n" % module)
+        for m in modules:
+            f.write("import %s\n" % m)
         for n in names:
             f.write("#print axioms %s\n" % n)
     rc, out = run_cmd(["lake", "env", "lean", audit], LEAN_DIR)
@@ -239,13 +253,13 @@ def proof_step(prop_id, tier, log):
             discharged += 1
     if tier == "thorough":
         res["obligations"] += 1
-        rc, out = run_cmd(["lake", "env", "leanchecker", module], LEAN_DIR)
+        rc, out = run_cmd(["lake", "env", "leanchecker"] + modules, LEAN_DIR)
         log.append(("leanchecker", rc, out[-2000:]))
         if rc == 0:
             discharged += 1
         else:
             res["ok"] = False
-            res["problems"].append("leanchecker rejected %s:\n%s" % (module, out[-2000:]))
+            res["problems"].append("leanchecker rejected %s:\n%s" % (" ".join(modules), out[-2000:]))
     res["discharged"] = discharged
     return res
 
@@ -686,7 +700,7 @@ def run_check(prop, argv):
     cov = {
         "obligations": pr["obligations"],
         "discharged": pr["discharged"],
-        "checker_cmd": "cd /verif/lean && lake build EpModel.Props.%s epdrv && lake env lean <generated '#print axioms' file>%s" % (pid, " && lake env leanchecker EpModel.Props.%s" % pid if tier == "thorough" else ""),
+        "checker_cmd": "cd /verif/lean && lake build %s epdrv && lake env lean <generated '#print axioms' file>%s" % (" ".join(theorem_modules(pid)), " && lake env leanchecker %s" % " ".join(theorem_modules(pid)) if tier == "thorough" else ""),
         "trusted_base": TRUSTED_BASE,
         "theorems": [{"name": n, "axioms": pr["axioms"].get(n)} for n in theorems],
         "evaluations": len(cases),
